@@ -253,6 +253,15 @@ class C01(Spec):
                 else:
                     chunks = S.boundary_chunks(rng, n, marks)
                 yield {'kind': 'factory', 'cls': cls, 'tree': tree, 'chunks': chunks}
+        # histories that mix small and large requests (block-size thresholds of buffered implementations)
+        sizes = [1, 2, 100, 1000, 4095, 4096, 4097, 8192, 10000, 16384]
+        for cls in CLASSES:
+            for _ in range(6 if tier == 'quick' else 40):
+                tree = make_tree(rng, cls)
+                chunks = [rng.choice(sizes) for _ in range(rng.randint(2, 4))]
+                if max(chunks) < 4096:
+                    chunks.insert(rng.randint(0, len(chunks)), rng.choice(sizes[4:]))
+                yield {'kind': 'factory', 'cls': cls, 'tree': tree, 'chunks': chunks, 'mixed': True}
         nfn = 600 if tier == 'quick' else 4000
         for _ in range(nfn):
             fs = rng.choice(S.FS_LIST)
